@@ -54,7 +54,7 @@ FORMULAS = ["H2O", "Fe[56]{2+}2O{2-}3", "10wt% NaCl@2.16 // H2O@1", "D2O@1n", "5
 
 
 def public_events():
-    return [e for e in c09.reduced_alphabet() if e[0] in ("read", "hasattr", "calc")]
+    return [e for e in c09.reduced_alphabet() if e[0] in ("read", "hasattr", "calc") and e[-1] == "public"]
 
 
 def event_strategy():
